@@ -76,6 +76,8 @@ class RT:
         conv = self.spec(k).get("iterable")
         if conv is not None:
             return conv(it)
+        if self.spec(k).get("cut_concrete") and isinstance(it, (list, tuple, range)):
+            return concrete_to_seq(list(it))          # treat a concrete list like an abstract one: the loop is cut at its invariant anyway
         return it
 
     def concrete(self, seq):
@@ -236,6 +238,20 @@ class RT:
         if self.super_obj is None:
             raise Unsupported("super() without a parent stub in the sidecar")
         return self.super_obj(obj) if callable(self.super_obj) else self.super_obj
+
+
+def concrete_to_seq(xs):
+    if not xs:
+        return SymSeq(z3.IntVal(0), lambda j: Sym(z3.IntVal(0)), SInt, "list")
+    sh = shape_of(xs[0])
+
+    def at(j):
+        j = lift(j)
+        r = xs[-1]
+        for i in range(len(xs) - 2, -1, -1):
+            r = sh.ite(j == i, xs[i], r)
+        return r
+    return SymSeq(z3.IntVal(len(xs)), at, sh, "list")
 
 
 class SymDict(dict):
